@@ -1,14 +1,16 @@
 // C03: interpolation is exact on the function space spanned by the grid's basis, at a SYMBOLIC evaluation point x.
 // C05 (mode 1): differentiate(x) is the exact gradient of evaluate(x) (the driver differentiates the expression of evaluate).
+// optional 3rd arg: history through which the queried grid is reached   0 make + load | 1 make(depth-1), load, updateGrid(depth), load | 2 = 1 then copy | 3 = 1 then binary write/read
 // args: <grid spec> <mode>   mode 0: exactness (C03)   mode 1: derivative (C05, arbitrary symbolic values)   mode 2: derivative on the reproduced space (C05 + C03)
 #include "tgrid.hpp"
 #include <complex>
+#include <sstream>
 
 static double domLo(const GridSpec &g, int j){ if (g.transform) return g.ta[j]; return g.family == "fourier" ? 0.0 : -1.0; }
 static double domHi(const GridSpec &g, int j){ if (g.transform) return g.tb[j]; return 1.0; }
 
 int main(int argc, char **argv){
-  GridSpec g = parseSpec(argv[1]); int mode = atoi(argv[2]);
+  GridSpec g = parseSpec(argv[1]); int mode = atoi(argv[2]); int hist = argc > 3 ? atoi(argv[3]) : 0;
   TasmanianSparseGrid grid; makeGrid(grid, g);
   int d = g.dims, outs = g.outputs, n = grid.getNumPoints();
   std::vector<double> pts = grid.getPoints();
@@ -57,13 +59,29 @@ int main(int argc, char **argv){
     nfun = outs; p = nullptr; scale += d;
   }
   fpsym_note("test_functions", nfun);
-  std::vector<double> vals((size_t) n * outs);
-  for (int i=0;i<n;i++){ std::vector<double> z = pointAt(pts, d, i);
-    for (int k=0;k<outs;k++){
-      if (grid.isWavelet()) vals[(size_t) i * outs + k] = (k == 0) ? 1.0 : z[(k - 1) % d];
-      else vals[(size_t) i * outs + k] = (k == 0) ? p(z) : (k + 1.0) * p(z);   // further outputs: multiples of the same function
-    } }
-  grid.loadNeededValues(vals);
+  bool wav = grid.isWavelet();
+  auto valsFor = [&](const std::vector<double> &P)->std::vector<double>{
+    size_t np = P.size() / d; std::vector<double> v(np * outs);
+    for (size_t i=0;i<np;i++){ std::vector<double> z = pointAt(P, d, (int) i);
+      for (int k=0;k<outs;k++){
+        if (wav) v[i * outs + k] = (k == 0) ? 1.0 : z[(k - 1) % d];
+        else v[i * outs + k] = (k == 0) ? p(z) : (k + 1.0) * p(z);   // further outputs: multiples of the same function
+      } }
+    return v; };
+  if (hist == 0 || grid.isLocalPolynomial() || grid.isWavelet() || g.depth == 0) grid.loadNeededValues(valsFor(pts));
+  else {
+    // the same function space, reached through an update of a coarser loaded grid (and then a copy / a round trip)
+    GridSpec g0 = g; g0.depth = g.depth - 1; TasmanianSparseGrid w; makeGrid(w, g0);
+    w.loadNeededValues(valsFor(w.getNeededPoints()));
+    w.updateGrid(g.depth, IO::getDepthTypeString(g.type), g.aw, g.ll);
+    if (w.getNumNeeded() > 0) w.loadNeededValues(valsFor(w.getNeededPoints()));
+    if (hist == 2){ TasmanianSparseGrid c; c.copyGrid(&w); grid = std::move(c); }
+    else if (hist == 3){ std::stringstream ss(std::ios::in | std::ios::out | std::ios::binary); w.write(ss, true); TasmanianSparseGrid c; c.read(ss, true); grid = std::move(c); }
+    else grid = std::move(w);
+    pts = grid.getPoints(); n = grid.getNumPoints();   // (non-nested rules keep the points of the coarser grid: the point sets may differ, the declared space may not)
+    if (grid.isGlobal() || grid.isSequence()){ TasmanianSparseGrid direct; makeGrid(direct, g); fpsym_check(grid.getGlobalPolynomialSpace(true) == direct.getGlobalPolynomialSpace(true), "the updated grid declares the polynomial space of the grid made directly at that depth"); }
+  }
+  std::vector<double> vals = valsFor(pts);
   std::vector<double> y; grid.evaluate(x, y);
   std::vector<double> want(outs);
   for (int k=0;k<outs;k++) want[k] = grid.isWavelet() ? ((k == 0) ? 1.0 : x[(k - 1) % d]) : ((k == 0) ? p(x) : (k + 1.0) * p(x));
